@@ -25,7 +25,11 @@
 (* (send queue, chunks eligible for (re)sending, armed timers) says when a *)
 (* datagram may be emitted; it is an abstraction of the code's four        *)
 (* sequence-number pointers and timer queues, enforced only when Sched is  *)
-(* TRUE (model checking: finiteness and liveness).                         *)
+(* TRUE (model checking: finiteness and liveness).  A resend request read  *)
+(* by goRead acts on it directly (the code hands it to goWrite without the *)
+(* 'e' step); the three timers are: resend (armed while chunks are in      *)
+(* flight), ack (armed by a read that accepted data), resend request       *)
+(* (armed while the ack builder knows a hole).                             *)
 (***************************************************************************)
 EXTENDS Integers, Sequences, FiniteSets, TLC
 
@@ -89,7 +93,6 @@ SetMin(S) == CHOOSE x \in S : \A y \in S : x <= y
 SetMax(S) == CHOOSE x \in S : \A y \in S : x >= y
 InSeq(x, s) == \E j \in 1 .. Len(s) : s[j] = x
 SwapRemove(s, k) == [j \in 1 .. (Len(s) - 1) |-> IF j = k THEN s[Len(s)] ELSE s[j]]
-NoChunks == [lo |-> 1, hi |-> 0]
 
 \* index in a layout of the message that owns sequence number s
 MsgIdx(L, s) == CHOOSE m \in 1 .. Len(L) : L[m].first <= s /\ s < L[m].first + L[m].n
